@@ -1,14 +1,25 @@
 //! vx_io: see /verif/harness/AGENTS-GUIDE.md; one module per property, dispatched on the property id.
+mod c35;
+mod c30;
+mod c30b;
+mod c31;
+mod c40;
+mod c40_json;
+mod c41;
+mod sub;
 
 use vcore::{machinery_error, Ctx};
 
 fn main() {
     let ctx = Ctx::from_args();
     vcore::quiet_panics();
-    #[allow(clippy::match_single_binding)]
     let out: vcore::Outcome = match ctx.id.as_str() {
+        "C30" => c30::run(&ctx),
+        "C31" => c31::run(&ctx),
+        "C35" => c35::run(&ctx),
+        "C40" => c40::run(&ctx),
+        "C41" => c41::run(&ctx),
         other => machinery_error(&format!("vx_io does not implement {other}")),
     };
-    #[allow(unreachable_code)]
     vcore::finish(&ctx, out);
 }
